@@ -1966,6 +1966,47 @@ Proof.
   apply andb_true_iff in H. destruct H as [H1 H2]. auto.
 Qed.
 
+(* fix D15/D20: an identifier body is shaken entry by entry; the group of the entries stays *)
+Lemma entries_shake_exact_flat : forall o ord b,
+  ord_keeps ord ->
+  wf_body b = true -> C01.no_nested b = true ->
+  C01.sh0 b = true -> C01.no_dneg b = true -> C01.shx b = true ->
+  exists b', entries (shake ord) b = Ok b' /\
+    (forall d0, C03.npd d0 -> solve_body o b' d0 = solve_body o b d0) /\ wf_body b' = true.
+Proof.
+  intros o ord b Hord B0 B1 B2 B3 B4.
+  set (P := fun x => wf_body x = true /\ C01.no_nested x = true /\ C01.sh0 x = true /\
+                     C01.no_dneg x = true /\ C01.shx x = true).
+  set (Q := fun x y : expr => (forall d0, C03.npd d0 -> solve_body o y d0 = solve_body o x d0) /\
+                              wf_body y = true).
+  assert (Hf : forall x, P x -> exists y, shake ord x = Ok y /\ Q x y).
+  { intros x [X0 [X1 [X2 [X3 X4]]]].
+    assert (Hi : invc x = true).
+    { apply (invc_of [] x false); auto using no_dneg_here. apply C03.wf_body_cond_nil. exact X0. }
+    destruct (shake_total ord x Hi) as [y Hy]. exists y. split; [exact Hy|]. split.
+    - intros d0 Hd0. apply (shake_exact_flat_keeps o ord _ _ d0 Hord Hd0 X0 X1 X2 X3 X4 Hy).
+    - apply (shake_exact_flat_keeps o ord _ _ (pure_doc (fun _ => None)) Hord (C03.npd_pure _) X0 X1 X2 X3 X4 Hy). }
+  destruct (entries_rel (shake ord) P Q b Hf) as [b' [Hb' Hrel]].
+  { destruct b as [s l| | | | | | | | | | | | |]; try (unfold P; auto).
+    intros x Hx. unfold P. split; [exact (wf_body_member _ _ _ B0 Hx)|].
+    cbn [C01.no_nested C01.sh0] in B1, B2.
+    split; [exact (forallb_In _ _ _ B1 Hx)|]. split; [exact (forallb_In _ _ _ B2 Hx)|].
+    split; [exact (no_dneg_member _ _ _ B3 Hx)|exact (shx_member _ _ _ B4 Hx)]. }
+  exists b'. split; [exact Hb'|].
+  destruct b as [s l| | | | | | | | | | | | |]; try exact Hrel.
+  destruct Hrel as [l' [-> HF]]. pose proof (wf_body_group _ _ B0) as Hs. split.
+  - intros d0 Hd0.
+    assert (HF2 : Forall2 (fun y x => (fun (y : expr) (_ : unit) => solve_cond o [] y d0) y tt =
+                                      (fun (x : expr) (_ : unit) => solve_cond o [] x d0) x tt) l' l).
+    { apply Forall2_flip'. eapply Forall2_In_impl; [exact HF|]. intros x y _ _ [Hxy _]. apply Hxy. exact Hd0. }
+    change (solve_cond o [] (EGroup s l') d0 = solve_cond o [] (EGroup s l) d0).
+    destruct s; try discriminate Hs.
+    + rewrite !cs_group_and. apply and_fold_F2. exact HF2.
+    + rewrite !cs_group_or. apply or_fold_F2. exact HF2.
+  - cbn [wf_body]. change (is_and_or_op s) with (is_and_or s). rewrite Hs. cbn [andb].
+    eapply Forall2_forallb; [exact HF|]. intros x y _ [_ Hw]. exact Hw.
+Qed.
+
 (* optimise_no_matrix_exact_flat is false as stated for reason (a): with a hash order that
    loses keys the merged searches of an or-group are lost *)
 Lemma optimise_no_matrix_exact_flat_refuted :
@@ -2044,17 +2085,18 @@ Proof.
       destruct (input_ok_split _ Hb) as [B1 [B2 [B3 B4]]].
       split; [exact Hw|]. split; [|auto].
       apply (invc_of [] (snd kv) false); auto using no_dneg_here. apply C03.wf_body_cond_nil. exact Hw. }
-    destruct (map_ids_ok (shake ord) ids) as [ids2 Hids2].
-    { intros kv Hkv. apply shake_total. apply (Hbody kv Hkv). }
+    destruct (map_ids_ok (entries (shake ord)) ids) as [ids2 Hids2].
+    { intros kv Hkv. destruct (Hbody kv Hkv) as [B0 [_ [B1 [B2 [B3 B4]]]]].
+      destruct (entries_shake_exact_flat o ord _ Hord B0 B1 B2 B3 B4) as [b' [Hb' _]].
+      exists b'. exact Hb'. }
     pose proof (map_ids_F2 _ _ _ Hids2) as HF.
     assert (HF' : Forall2 (fun kv kv' => fst kv' = fst kv /\
                      ((forall d0, C03.npd d0 -> solve_body o (snd kv') d0 = solve_body o (snd kv) d0) /\
                       wf_body (snd kv') = true)) ids ids2).
     { eapply Forall2_In_impl; [exact HF|]. intros kv kv' Hkv _ [Hk Hs].
       split; [exact Hk|]. destruct (Hbody kv Hkv) as [B0 [_ [B1 [B2 [B3 B4]]]]].
-      split.
-      - intros d0 Hd0. apply (shake_exact_flat_keeps o ord _ _ d0 Hord Hd0 B0 B1 B2 B3 B4 Hs).
-      - apply (shake_exact_flat_keeps o ord _ _ (pure_doc d) Hord Hd B0 B1 B2 B3 B4 Hs). }
+      destruct (entries_shake_exact_flat o ord _ Hord B0 B1 B2 B3 B4) as [b' [Hb' Hq]].
+      rewrite Hs in Hb'. injection Hb' as <-. exact Hq. }
     assert (Hwb2 : forallb (fun kv => wf_body (snd kv)) ids2 = true).
     { eapply Forall2_forallb; [exact HF'|]. intros kv kv' _ [_ [_ Hw]]. exact Hw. }
     assert (Hrel : ids_rel (fun b b' => solve_body o b' (pure_doc d) = solve_body o b (pure_doc d)) ids ids2).
